@@ -231,6 +231,7 @@ def array_strategy(draw, ctx):
 
 def body_array(ctx, case):
     import fdtdx
+    import jax
     import jax.numpy as jnp
 
     sym, shape, spatial = tuple(case["sym"]), tuple(case["shape"]), tuple(case["spatial"])
@@ -244,8 +245,9 @@ def body_array(ctx, case):
         else:
             signs_np[int(k)] = float(v)
     signs_j = {a: (jnp.asarray(s) if isinstance(s, np.ndarray) else s) for a, s in signs_np.items()}
-    got = np.asarray(fdtdx.unfold_array(jnp.asarray(arr), sym, spatial, signs_j if case["use_signs"] else None,
-                                        tuple(case["on_plane"])))
+    # one fused XLA program per case instead of one per jnp op (pure speed; semantics are identical)
+    fn = jax.jit(lambda x, sg: fdtdx.unfold_array(x, sym, spatial, sg, tuple(case["on_plane"])))
+    got = np.asarray(fn(jnp.asarray(arr), signs_j if case["use_signs"] else None))
     want = arr
     for a in range(3):
         if sym[a]:
@@ -406,16 +408,22 @@ def _base(lane):
     return _BASE[lane]
 
 
-def run_unfold(ctx, case, det, state_np):
+def run_unfold(ctx, case, det, state_np, jit=True):
     import fdtdx
+    import jax
     import jax.numpy as jnp
     from fdtdx.fdtd.container import ObjectContainer
 
     b = _base(ctx.lane)
     oc = ObjectContainer(object_list=[b.objects.volume, det], volume_idx=0)
     cfg = b.config.aset("symmetry", tuple(case["sym"]))
-    arr = b.arrays.aset("detector_states", {"det": {k: jnp.asarray(v) for k, v in state_np.items()}})
-    out = fdtdx.unfold_detector_states(arr, oc, cfg).detector_states["det"]
+
+    def fn(st):
+        return fdtdx.unfold_detector_states(b.arrays.aset("detector_states", {"det": st}), oc, cfg).detector_states["det"]
+
+    if jit:  # one fused XLA program per case instead of one per jnp op (pure speed; the placed sub runs eagerly)
+        fn = jax.jit(fn)
+    out = fn({k: jnp.asarray(v) for k, v in state_np.items()})
     return {k: np.asarray(v) for k, v in out.items()}
 
 
@@ -504,7 +512,7 @@ def region_strategy(draw, sym, exact, allow_thin=False):
             lo = draw(st.integers(0, 2))
             out.append([lo, lo + draw(st.integers(1, 3))])
             continue
-        rel = draw(st.sampled_from(["straddle", "straddle", "straddle", "asym", "start", "inside"]))
+        rel = draw(st.sampled_from(["straddle", "straddle", "straddle", "asym", "start", "start", "inside"]))
         on_plane = exact and sym[a] == -1 and a in (0, 1)
         kmin = 2 if (on_plane and not allow_thin) else 1
         k = draw(st.integers(kmin, 3))
@@ -554,8 +562,7 @@ def body_detector(ctx, case):
 def placed_strategy(draw, ctx):
     case = draw(detector_strategy(ctx, keep_all=False))
     # full-domain volume: plane at m = n on symmetric axes; leave room above the region
-    half = [max(hi for _, hi in [case["unreduced"][a]]) + draw(st.integers(0, 1)) for a in range(3)]
-    half = [max(h, 2) for h in half]
+    half = [max(2, case["unreduced"][a][1], -case["unreduced"][a][0]) + draw(st.integers(0, 1)) for a in range(3)]
     case["half"] = half
     if case["kind"] == "poynting":
         # a flux plane: one cell thick along its axis (no fixed axis given to the real detector)
@@ -671,7 +678,7 @@ def body_thin(ctx, case):
         return
     det = make_detector(case, False, ctx.lane)
     s = spatial_state(case, case["seed"])
-    U = run_unfold(ctx, case, det, s)
+    U = run_unfold(ctx, case, det, s, jit=False)
     touched = det_touched(case)
     for key, arr in s.items():
         want_shape = list(arr.shape)
@@ -693,7 +700,7 @@ SUBS = [
     Sub(name="detector", body=body_detector, strategy=lambda ctx: detector_strategy(ctx), quick=200, thorough=8000,
         lanes=("f64",), quick_shards=4,
         rule="synthetic detector of every kind, region in every relation to the planes, random records"),
-    Sub(name="detector_placed", body=body_placed, strategy=lambda ctx: placed_strategy(ctx), quick=8, thorough=240,
+    Sub(name="detector_placed", body=body_placed, strategy=lambda ctx: placed_strategy(ctx), quick=16, thorough=480,
         lanes=("f64",), quick_shards=4, rule="the same through place_objects (bookkeeping + state shapes + unfold)"),
     Sub(name="thin", body=body_thin, cases=thin_cases, lanes=("f64",), exhaustive=True, exhaustive_quick=True,
         quick_shards=4, rule="one kept sample along an electric-plane axis (2-cell axis / 2-cell-thick detector)"),
